@@ -362,5 +362,18 @@ def finish(o: Outcome, findings: List[dict]) -> int:
     return rc
 
 
+def pmap(func, items, procs: int = None, chunksize: int = 4):
+    """Parallel map over forked worker processes (the drivers are CPU-bound pure Python/torch)."""
+    items = list(items)
+    if procs is None:
+        procs = max(1, min(NCPU - 2, len(items) // 4))
+    if procs <= 1 or len(items) < 8:
+        return [func(x) for x in items]
+    import multiprocessing as mp
+    ctx = mp.get_context('fork')
+    with ctx.Pool(procs) as pool:
+        return pool.map(func, items, chunksize=chunksize)
+
+
 def rng_for(seed: int, tag: str) -> random.Random:
     return random.Random(f'{seed}:{tag}')
